@@ -25,9 +25,11 @@ type patCond struct {
 
 type patCase struct {
 	W struct {
-		W   patCond `json:"w"`
-		T   string  `json:"t"`
-		Rhs string  `json:"rhs"`
+		W    patCond `json:"w"`
+		T    string  `json:"t"`
+		Rhs  string  `json:"rhs"`
+		Ctl  string  `json:"ctl"`  // "complete" / "retract": a control call placed before the assignment
+		Post bool    `json:"post"` // a further action F.C = <the reader's condition> after the assignment
 	} `json:"w"`
 	R struct {
 		W patCond `json:"w"`
@@ -110,9 +112,19 @@ func cmdPatternTraces(args []string) {
 		if r.Intn(2) == 0 {
 			wsal, rsal = 0, 1
 		}
+		var wacts []*Action
+		switch pc.W.Ctl {
+		case "complete":
+			wacts = append(wacts, &Action{Kind: "complete"})
+		case "retract":
+			wacts = append(wacts, &Action{Kind: "retract", Name: "W"})
+		}
+		wacts = append(wacts, &Action{Kind: "asg", Path: patPath(pc.W.T), Form: "=", E: rhs})
+		if pc.W.Post {
+			wacts = append(wacts, &Action{Kind: "asg", Path: P("F.C"), Form: "=", E: pc.R.W.expr()})
+		}
 		prog := &Program{Rules: []*Rule{
-			{Name: "W", HasSal: true, Sal: wsal, When: pc.W.W.expr(), Bare: r.Intn(2) == 0,
-				Then: []*Action{{Kind: "asg", Path: patPath(pc.W.T), Form: "=", E: rhs}}},
+			{Name: "W", HasSal: true, Sal: wsal, When: pc.W.W.expr(), Bare: r.Intn(2) == 0, Then: wacts},
 			{Name: "R", HasSal: true, Sal: rsal, When: pc.R.W.expr(), Bare: r.Intn(2) == 0,
 				Then: []*Action{{Kind: "set", Name: "Mark", E: CI(2), Once: true}, {Kind: "retract", Name: "R"}}},
 		}}
